@@ -1,3 +1,16 @@
+// Package c15 is the harness of property C15: single-party signatures (ECDSA, BIP-340,
+// configurable Schnorr, Mina, BLS) verify exactly for the signed message and key.
+//
+//	ecdsa_test.go          TestECDSA, TestECDSADifferential
+//	ecdsa_vectors_test.go  TestECDSAVectorsRFC6979, TestECDSADeterministicNonNIST (observation)
+//	bip340_test.go         TestBIP340, TestBIP340Vectors, TestBIP340Batch
+//	schnorr_test.go        TestSchnorrGeneric
+//	mina_test.go           TestMina, TestMinaVectors, TestMinaPackingObservation (observation)
+//	bls_test.go            TestBLSSingle, TestBLSAggregate, TestBLSSameKeyBatch, TestBLSVectors
+//	testdata/              pinned copies of the published vectors (embedded)
+//
+// Independent oracles: crypto/ecdsa on elliptic.P256(), vlib/refcurve (math/big curve model,
+// textbook ECDSA and recovery, BIP-340 from the BIP text, Schnorr group equation, point encoders).
 package c15
 
 import (
